@@ -440,13 +440,13 @@ impl HasChildren for XmlAttribute {
     }
 
     fn insert_by_id(&self, value: Rc<XmlItem>, id: Option<usize>) -> error::Result<Rc<XmlItem>> {
-        if self.ancestor(value.id()) {
+        if self.id() == value.id() || self.ancestor(value.id()) {
             return Err(error::Error::InvalidHierarchy);
         }
 
+        let v = XmlAttributeValue::try_from(value.clone())?;
         value.remove_from_parent();
         value.set_parent_id(Some(self.id()));
-        let v = XmlAttributeValue::try_from(value.clone())?;
         if let Some(id) = id {
             let index = self.child_index(id).unwrap();
             self.values.borrow_mut().insert(index, v.clone());
@@ -2069,7 +2069,7 @@ impl HasChildren for XmlElement {
     }
 
     fn insert_by_id(&self, value: Rc<XmlItem>, id: Option<usize>) -> error::Result<Rc<XmlItem>> {
-        if self.ancestor(value.id()) {
+        if self.id() == value.id() || self.ancestor(value.id()) {
             return Err(error::Error::InvalidHierarchy);
         }
 
